@@ -85,6 +85,8 @@ def site_of(e: BaseException) -> str:
     tb = traceback.extract_tb(e.__traceback__)
     for fr in reversed(tb):
         if "/xdsl/" in fr.filename:
+            if fr.name in ("_consume_token", "_parse_token", "raise_error"):      # generic helpers: the site is their caller
+                continue
             return f"{fr.filename.split('/xdsl/', 1)[1]}:{fr.name}"
     return "outside-xdsl"
 
@@ -115,6 +117,8 @@ def budget(n: int) -> float:
 
 def _worker(texts: list[str], start: int, conn):
     signal.signal(signal.SIGVTALRM, signal.SIG_DFL)   # exceeding the CPU budget kills the worker, whatever it is executing
+    import resource
+    resource.setrlimit(resource.RLIMIT_AS, (6 << 30, 6 << 30))   # a literal that asks for gigabytes must not take the machine down
     import sys
     sys.setrecursionlimit(3000)
     devnull = open(os.devnull, "w")
@@ -250,6 +254,14 @@ def attribute_grid() -> list[str]:
                 out.append(f'"test.op"() {{a = dense<{lit}> : {shaped.format(ty)}}} : () -> ()')
             out.append(f'"test.op"() {{a = array<{ty}: {lit.strip("[]")}>}} : () -> ()')
             out.append(f'"test.op"() {{a = {lit} : {ty}}} : () -> ()')
+    # shaped types: dimension lists with dynamic / scalable / malformed entries
+    dims = ["2", "?", "[2]", "[?]", "0", "-1", "2x?", "?x2", "[2]x[4]", "2x[?]", "[4]x?", "x", "2x", "[2", "2]", "[]", "[2x3]", "?x?x?", "1x1x1x1x1", "4294967296", "0x10"]
+    for dl in dims:
+        for el in ("f32", "i32", "index", "?", ""):
+            for shaped in ("tensor<{}x{}>", "vector<{}x{}>", "memref<{}x{}>", "tensor<{}{}>"):
+                t = shaped.format(dl, el)
+                out.append(f'%0 = "test.op"() : () -> {t}')
+                out.append(f'"test.op"() {{a = dense<0> : {t}}} : () -> ()')
     return out
 
 
@@ -369,7 +381,8 @@ def run(ctx: Ctx):
                 continue
             shown = t if len(t) <= 300 else t[:120] + f" ... ({len(t)} characters)"
             ctx.violate(f"{what[idx]} {shown!r}: {clause} " + (f"({r['out']} at {r['site']})" if clause == "FailsOnlyWithDiagnostics" else f"(more than {budget(len(t)):.1f} s of CPU)"),
-                        {"clause": clause, "exception": r["out"], "site": r["site"].split("|")[0], "enum_conversion": r["site"].endswith("|enum-conversion"), "text": t if len(t) <= 3000 else t[:3000], "length": len(t), "probe": what[idx] if what[idx].startswith("probe") else ""},
+                        {"clause": clause, "exception": r["out"], "site": r["site"].split("|")[0], "enum_conversion": r["site"].endswith("|enum-conversion"), "text": t if len(t) <= 3000 else t[:3000], "length": len(t), "probe": what[idx] if what[idx].startswith("probe") else "",
+                         "huge_dimension": bool(__import__("re").search(r"<\d{10,}x|x\d{10,}x", t))},
                         clause=clause)
         else:
             n_div += 1
